@@ -107,11 +107,14 @@ class DeterministicOde(BaseOdeModel):
         self._intName = None
         self._paramValue = [0]*len(self._paramList)
 
+    @property
+    def _SAUtil(self):
         # the class for shape re-adjustment. We would always like to
         # operate in the matrix form if possible as it takes up less
         # memory when operating, but the output is required to be of
-        # the vector form
-        self._SAUtil = ode_utils.shapeAdjust(self.num_state, self.num_param)
+        # the vector form.  Built on demand so that it follows the
+        # current number of states and parameters.
+        return ode_utils.shapeAdjust(self.num_state, self.num_param)
 
     def __eq__(self, other):
         if isinstance(other, DeterministicOde):
